@@ -13,19 +13,36 @@
 
 struct verif_in {
 	int32_t ns;
+	snapraid_info info;
+	time_t info_now, info_oldest;
+	unsigned prevhash;
 };
 VERIF_DECLARE_IN
 
-static uint32_t g_put;
-static unsigned g_put_calls;
-/* callee by contract: records the value (sgetb32(sputb32(v)) == v is discharged by stream.rt32) */
+static uint32_t g_put, g_q[4];
+static unsigned g_put_calls, g_get_calls;
+/* callees by contract: a FIFO of integers (sgetb32(sputb32(v)) == v is discharged by stream.rt32) */
 int sputb32(uint32_t value, STREAM *s)
 {
 	(void)s;
 	g_put = value;
+	if (g_put_calls < 4)
+		g_q[g_put_calls] = value;
 	++g_put_calls;
 	return 0;
 }
+int sgetb32(STREAM *s, uint32_t *value)
+{
+	(void)s;
+	*value = g_q[g_get_calls < 4 ? g_get_calls : 3];
+	++g_get_calls;
+	return 0;
+}
+#ifdef VERIF_CBMC
+void log_fatal(const char *format, ...) { (void)format; }
+void os_abort(void) { __CPROVER_assume(0); }
+#endif
+static void decoding_error(const char *path, STREAM *f) { (void)path; (void)f; }
 
 #include "region_nsec_enc.c"
 #include "region_nsec_dec.c"
@@ -43,5 +60,46 @@ void h_nsec_roundtrip(void)
 	VERIF_ASSERT((int32_t)v == IN.ns, "decode(encode(mtime_nsec)) == mtime_nsec");
 	VERIF_CANARY();
 }
+
+/*
+ * 'i' record: per-stripe info word.  decode(encode(info)) == info for every info word whose time lies between the
+ * oldest recorded time and "now" (times are 8-second aligned); 0 (no info) round-trips; a time in the future is
+ * clamped to now (documented normalisation - which is why byte identity needs a clock that does not run backwards).
+ */
+#ifdef VERIF_INFO_REGIONS
+#include "region_info_enc.c"
+#include "region_info_dec.c"
+
+void h_info_roundtrip(void)
+{
+	static struct snapraid_state st;
+	snapraid_info out;
+	uint32_t flag;
+	time_t t;
+	VERIF_INPUTS();
+	st.prevhash = IN.prevhash ? HASH_SPOOKY2 : HASH_UNDEFINED;
+	VERIF_ASSUME(IN.info_oldest >= 0 && IN.info_oldest <= IN.info_now && IN.info_now <= 0xfffffff8u);
+	VERIF_ASSUME((IN.info_oldest & 7) == 0);
+	t = info_get_time(IN.info);
+	/* the writer computes info_oldest as the minimum over the required stripes: here the stripe is a required one */
+	VERIF_ASSUME(IN.info == 0 || t >= IN.info_oldest);
+	/* a rehash mark can only exist while a previous hash kind is recorded */
+	VERIF_ASSUME(!(info_get_rehash(IN.info) && !IN.prevhash));
+	g_put_calls = g_get_calls = 0;
+	region_info_enc(IN.info, IN.info_now, IN.info_oldest, 0);
+	VERIF_ASSERT(g_put_calls == (IN.info ? 2u : 1u), "the info word is written as a flag and, when present, a time");
+	/* reader: the flag was fetched by the caller of the region */
+	flag = g_q[0];
+	g_get_calls = 1;
+	out = region_info_dec(&st, flag, (uint32_t)IN.info_oldest, 0, "content");
+	if (IN.info == 0)
+		VERIF_ASSERT(out == 0, "a missing info word reloads as missing");
+	else if (t <= IN.info_now)
+		VERIF_ASSERT(out == IN.info, "decode(encode(info)) == info (time, bad, rehash, just-synced)");
+	else
+		VERIF_ASSERT(out == info_make(IN.info_now, info_get_bad(IN.info), info_get_rehash(IN.info), info_get_justsynced(IN.info)), "a time in the future is clamped to now, marks kept");
+	VERIF_CANARY();
+}
+#endif
 
 #include "verif_tail.h"
